@@ -141,6 +141,24 @@ func MultipleOf(x, y *internal.Decimal) (bool, error) {
 	if err != nil {
 		return false, err
 	}
+	// The quotient above is rounded to the precision of the context, which
+	// loses the fraction of quotients with many integer digits: 10e34 would
+	// be a multiple of 11. Decide divisibility exactly on the coefficients
+	// whenever the difference in scale is small enough to do so.
+	const maxShift = 1 << 16
+	if x.Form == apd.Finite && y.Form == apd.Finite && !y.IsZero() {
+		if shift := int64(x.Exponent) - int64(y.Exponent); -maxShift <= shift && shift <= maxShift {
+			cx := new(big.Int).Set(x.Coeff.MathBigInt())
+			cy := new(big.Int).Set(y.Coeff.MathBigInt())
+			pow := new(big.Int).Exp(big.NewInt(10), big.NewInt(max(shift, -shift)), nil)
+			if shift >= 0 {
+				cx.Mul(cx, pow)
+			} else {
+				cy.Mul(cy, pow)
+			}
+			return cx.Rem(cx, cy).Sign() == 0, nil
+		}
+	}
 	var frac apd.Decimal
 	d.Modf(nil, &frac)
 	return frac.IsZero(), nil
